@@ -71,10 +71,23 @@ def make_crystal(rng):
     for _ in range(80):
         n, kind = rng.choice(SETTINGS)
         names = [rng.choice(list(TEMPLATES)) for _ in range(rng.choice([1, 1, 2, 2, 3]))]
+        fam = rng.random()
+        if fam < 0.08:
+            names = ["rod"]
+        twins = 0.9 <= fam
+        fam_edge = 0.8 <= fam < 0.9
+        if fam_edge:
+            names = [rng.choice(["co", "co2", "hcn", "c3"])] + names[1:2]
+            names = [x for x in names if x != "rod"]
+        if twins:
+            # Z' = 2 or 3 with EQUAL molecules, labelled per molecule (O1 H1 H2, O1 H1 H2): which image belongs to which is decided by the
+            # atoms, not by their labels
+            nm_ = rng.choice([t for t in TEMPLATES if t != "rod"])
+            names = [nm_] * rng.choice([2, 2, 3])
         if "rod" in names:
             names = ["rod"]                       # a molecule several times longer than a short cell axis
             n, kind = rng.choice([(1, "short"), (2, "short")])
-        elif rng.random() < 0.25:
+        elif fam < 0.6:
             n, kind = rng.choice([(2, "oblique"), (14, "oblique"), (4, "oblique")])
         sg = SpaceGroup(n)
         L = lambda lo=8, hi=14: rng.uniform(lo, hi)
@@ -95,7 +108,7 @@ def make_crystal(rng):
                 rng.shuffle(perm)                 # listing order is not parent-before-child
             z, p = [z[i] for i in perm], [p[i] for i in perm]
             o = np.array([rng.uniform(-1.3, 2.3) if rng.random() < 0.3 else rng.uniform(-0.3, 1.3) for _ in range(3)]) @ np.asarray(uc.direct)
-            if kind == "oblique" and k == 0 and len(z) >= 2 and rng.random() < 0.6:
+            if kind == "oblique" and k == 0 and len(z) >= 2 and rng.random() < 0.8:
                 # a bond along a* (perpendicular to the b-c face) leaving the cell through the face x = 1: the partner atom is further
                 # from the cell in FRACTIONAL terms than its Cartesian distance over |a| suggests
                 Dm = np.asarray(uc.direct)
@@ -116,12 +129,32 @@ def make_crystal(rng):
                 # inside the face up to almost a whole bond length away from it
                 width = 1.0 / np.linalg.norm(np.linalg.inv(Dm)[:, 0])
                 blen = float(np.linalg.norm(q[1] - q[0]))
-                x0 = 1.0 - rng.choice([rng.uniform(0.02, 0.5), rng.uniform(0.5, 0.9), rng.uniform(0.9, 0.995)]) * blen / width
+                x0 = 1.0 - rng.choice([rng.uniform(0.01, 0.12), rng.uniform(0.01, 0.12), rng.uniform(0.02, 0.5), rng.uniform(0.5, 0.9), rng.uniform(0.9, 0.995), rng.uniform(0.9, 0.995)]) * blen / width
                 o = np.array([x0, rng.uniform(0.2, 0.8), rng.uniform(0.2, 0.8)]) @ Dm
                 P = o + (q - q[0]) @ Rr.T
+            elif k == 0 and len(z) <= 3 and fam_edge:
+                # a small molecule lying across a cell EDGE: its first bond leaves the cell through two faces at once, in opposite senses
+                # (cell offset (+1, -1, 0) and the like)
+                Dm = np.asarray(uc.direct)
+                i1, i2 = rng.sample(range(3), 2)
+                dirv = Dm[i1] / np.linalg.norm(Dm[i1]) - Dm[i2] / np.linalg.norm(Dm[i2])
+                dirv /= np.linalg.norm(dirv)
+                q = np.array(p, dtype=float)
+                b0 = (q[1] - q[0]) / np.linalg.norm(q[1] - q[0])
+                v = np.cross(b0, dirv)
+                cth = float(np.dot(b0, dirv))
+                if np.linalg.norm(v) > 1e-8 and cth > -0.999:
+                    vx = np.array([[0, -v[2], v[1]], [v[2], 0, -v[0]], [-v[1], v[0], 0]])
+                    Rr = np.eye(3) + vx + vx @ vx * (1 / (1 + cth))
+                else:
+                    Rr = np.eye(3)
+                fm = np.array([rng.uniform(0.2, 0.8) for _ in range(3)])
+                fm[i1], fm[i2] = 1.0, 0.0                      # the bond midpoint sits ON the edge
+                mid = fm @ Dm
+                P = mid + (q - 0.5 * (q[0] + q[1])) @ Rr.T
             elif nm == "rod":
                 # tilted about 60 degrees from the short axis, in the a-b plane
-                t = math.radians(rng.uniform(50, 70))
+                t = math.radians(rng.uniform(35, 70))
                 Rr = np.array([[math.cos(t), math.sin(t), 0], [-math.sin(t), math.cos(t), 0], [0, 0, 1]])
                 P = o + np.array(p) @ Rr
             else:
@@ -142,7 +175,7 @@ def make_crystal(rng):
         # site labels as users supply them (PDB-style: the same label set repeated for every copy of a molecule), and site occupancies
         # (a half-occupied solvent molecule): neither changes which atoms are bonded or which molecule is an image of which
         extra = {}
-        style = rng.choice(["default", "default", "per-molecule", "occupancy", "both"])
+        style = rng.choice(["default", "default", "per-molecule", "occupancy", "both"]) if not twins else rng.choice(["per-molecule", "both"])
         if style in ("per-molecule", "both"):
             cnt = {}
             labs = []
@@ -324,7 +357,7 @@ def judge(seed):
 
 
 def search(ctx, budget):
-    n = 90 if budget == "quick" else 1500
+    n = 160 if budget == "quick" else 1500
     for _ in range(n):
         seed = ctx.rng.randrange(1 << 30)
         try:
